@@ -16,6 +16,7 @@ EXPLANATION = (
     "shallow clone of another symbol's cell; (R6) the public interpret entry runs the evaluator inside catch_unwind and no process::exit/abort is reachable "
     "from the evaluator. Not decided: equality of values before/after (runtime)."
     " (R5, re-keyed) each site that stores the result of the shallow detach helper is keyed by the provenance of what it hands to the helper (callees feeding it and number of plain copies through named variables), so a new aliasing path is a new violation rather than hidden behind the known one; (R3) also accepts validate-all-then-insert-all over the same sequence; (R7) every path from FunctionScope::enter to a return of the caller restores the caller's symbol table, plan and environment (Drop of the guard or an explicit exit)."
+    " (R8) operand roles of the assignment compilers: the value evaluated from the statement's right-hand side reaches the kernel's source field and the looked-up variable its sink field, on the native and on the fallback (Value-level) path."
 )
 
 INTERP = "mech_interpreter.lib"
